@@ -28,7 +28,7 @@ type c02Case struct {
 }
 
 var c02Setters = []string{"subject", "gen-header", "from-name", "to-name", "cc-name", "replyto-name", "message-id", "organization", "user-agent",
-	"attachment-name", "embed-name", "file-description", "part-description", "content-id"}
+	"attachment-name", "embed-name", "file-description", "part-description", "content-id", "mdn-name", "mdn-add-name"}
 
 // c02Apply builds the message of the given shape and applies the setter(s). It returns the first setter error.
 func c02Build(shape int, b bool, sets [][2]interface{}) (*mail.Msg, error) {
@@ -82,6 +82,13 @@ func c02Build(shape int, b bool, sets [][2]interface{}) (*mail.Msg, error) {
 	}
 	if v, ok := val(8); ok {
 		m.SetUserAgent(v)
+	}
+	if v, ok := val(14); ok {
+		note(m.RequestMDNToFormat(v, "mdn@snd.example"))
+	}
+	if v, ok := val(15); ok {
+		note(m.RequestMDNTo("first@snd.example"))
+		note(m.RequestMDNAddToFormat(v, "mdn@snd.example"))
 	}
 	var po []mail.PartOption
 	if v, ok := val(12); ok {
@@ -418,6 +425,9 @@ func c02ExecOne(r *vf.Run, k c02Case) []finding {
 	case "replyto-name":
 		g, err := parseDisplayName(he.First("Reply-To"), "reply@snd.example")
 		chk("Reply-To display name", g, err, want)
+	case "mdn-name", "mdn-add-name":
+		g, err := parseDisplayName(he.First("Disposition-Notification-To"), "mdn@snd.example")
+		chk("Disposition-Notification-To display name", g, err, want)
 	case "message-id":
 		if vc == "plain" || vc == "specials" && !strings.ContainsAny(string(k.Value), "<> ") {
 			if g := he.First("Message-ID"); g != "<"+string(k.Value)+">" {
@@ -525,7 +535,8 @@ func c02Values(thorough bool) [][]byte {
 			vs = append(vs, []byte(repeatTo("a", a)+" \t "+repeatTo("b", b)), []byte(repeatTo("a", a)+"  "+repeatTo("b", b)+"  "+repeatTo("c", a)))
 		}
 	}
-	vs = append(vs, []byte("x\r\nX-Injected: yes"), []byte("x\r\n\r\ninjected body"), []byte("=?utf-8?q?already=20encoded?="), []byte("a\r\n b"), []byte("x\nBcc: evil@example.com"))
+	vs = append(vs, []byte("100% sure %s %d %v %%"), []byte("%!s(MISSING)"), []byte("%n%n%n"),
+		[]byte("x\r\nX-Injected: yes"), []byte("x\r\n\r\ninjected body"), []byte("=?utf-8?q?already=20encoded?="), []byte("a\r\n b"), []byte("x\nBcc: evil@example.com"))
 	return vs
 }
 
@@ -533,7 +544,7 @@ func init() {
 	vf.Register(&vf.Check{
 		ID: "C02", Title: "no caller-supplied text can alter the header block",
 		Run: func(r *vf.Run) {
-			r.SetRule("14 text-accepting setters (subject, generic header, From/To/Cc/Reply-To display names, message-id, organisation, user-agent, attachment and embed file names, file and part descriptions, content-id) × values {every byte 0..255 at start/middle/end of a carrier; all 2-grams (thorough: 3-grams) over 16 dangerous symbols CR LF NUL TAB SP \" \\ < > : ; = ? 0x80 0xFF ü; lengths 0,1,74..79,200,1000; classic injection payloads} × header encoder {Q,B} × shape {single part, alternative, mixed+related}, alone and (2-grams) in pairs of setters; oracle is differential: every header section must have exactly the field names of the same message built with a benign value, bodies unchanged, and the value must decode back (RFC 2047, WSP-normalised; file names after the documented '_' replacement) unless the setter returned an error; distinct by case tuple")
+			r.SetRule("16 text-accepting setters (subject, generic header, From/To/Cc/Reply-To and Disposition-Notification-To display names, message-id, organisation, user-agent, attachment and embed file names, file and part descriptions, content-id) × values {every byte 0..255 at start/middle/end of a carrier; all 2-grams (thorough: 3-grams) over 16 dangerous symbols CR LF NUL TAB SP \" \\ < > : ; = ? 0x80 0xFF ü; lengths 0,1,74..79,200,1000; classic injection payloads} × header encoder {Q,B} × shape {single part, alternative, mixed+related}, alone and (2-grams) in pairs of setters; oracle is differential: every header section must have exactly the field names of the same message built with a benign value, bodies unchanged, and the value must decode back (RFC 2047, WSP-normalised; file names after the documented '_' replacement) unless the setter returned an error; distinct by case tuple")
 			r.Assume("*Preformatted setters are raw by contract and excluded", "header names, content types and charsets are typed constants, not free text",
 				"message-id / content-id values are only compared when they are printable ASCII without blanks and angle brackets")
 			vals := c02Values(r.Thorough)
